@@ -24,6 +24,16 @@ CLAIMED = {
         note="Inputs are canonical residues (API contract). Reduction inputs are products of two canonical elements. "
              "fp_exp_slide may report ERR_NO_BUFFER for exponents longer than RLC_FP_BITS+1 bits.",
         tech=PBT + "a Python Z/pZ reference on raw (Montgomery) digit vectors; canonical-form and variant-agreement oracles"),
+    "C03": dict(
+        text="Generated-input search over the prime-curve group law (every coordinate system, mixed representations, "
+             "exceptional operand pairs, alias patterns) and every scalar-multiplication routine (variable base, "
+             "fixed base with each precomputation, generator, digit, simultaneous incl. many-point forms) on every curve "
+             "selectable in the build, with scalars from 0 to the bignum precision incl. negatives and multiples of "
+             "the order; oracle = independent affine chord-and-tangent reference (Python), normalised-output, on-curve "
+             "and input-preservation checks.",
+        note="Curve parameters are read from the library and sanity-checked by the reference (C18 validates them). "
+             "Each coordinate-specific routine is fed only the representations it documents.",
+        tech=PBT + "an independent affine Weierstrass reference; differential oracle on reference-normalised points"),
 }
 REASONS_TODO = "check not built yet (work in progress; see DESIGN.md §5 implementation order)"
 
